@@ -349,3 +349,72 @@ func (s *P2Set) CheckWrites(o *P2Obs) [][2]string {
 	}
 	return CheckWritesGeneric(orig, o.RepairLog, o.RepairedPaths, o.Before, o.After)
 }
+
+// ApplyDmg applies a damage operator, including the set-aware ones that
+// act on recovery files:
+//   badrec v     replace recovery file v by a well-formed file (reference writer) whose blocks carry wrong data
+//   fliprec v    flip one payload byte of recovery file v (packet MD5 then fails)
+//   truncrec v   cut recovery file v in the middle of its last packet
+//   foreignrec   add s.vol77+01.par2 holding packets of a different recovery set
+//   emptyrec v   make recovery file v empty
+func (s *P2Set) ApplyDmg(fs *envfs.FS, d Dmg, seed int64) {
+	switch d.Op {
+	case "badrec":
+		if d.F >= len(s.RecFiles) {
+			return
+		}
+		p := s.RecFiles[d.F]
+		pk := s.Ref.CorePackets("refwriter")
+		for _, e := range s.RecExps[p] {
+			blk := s.Ref.RecoveryBlock(int(e))
+			blk[0] ^= 0x55
+			blk[len(blk)-1] ^= 0xaa
+			pk = append(pk, s.Ref.RecvPacket(e, blk))
+		}
+		fs.Put(p, rpar2.Join(pk...))
+	case "fliprec":
+		if d.F >= len(s.RecFiles) {
+			return
+		}
+		p := s.RecFiles[d.F]
+		b, ok := fs.Get(p)
+		if !ok {
+			return
+		}
+		nb := append([]byte{}, b...)
+		nb[len(nb)-1-d.At%8] ^= 0x10
+		fs.Put(p, nb)
+	case "truncrec":
+		if d.F >= len(s.RecFiles) {
+			return
+		}
+		p := s.RecFiles[d.F]
+		b, ok := fs.Get(p)
+		if !ok {
+			return
+		}
+		fs.Put(p, b[:len(b)-3])
+	case "emptyrec":
+		if d.F >= len(s.RecFiles) {
+			return
+		}
+		fs.Put(s.RecFiles[d.F], nil)
+	case "foreignrec":
+		other := rpar2.NewSet(s.Cfg.Slice, []rpar2.FileSpec{{Name: "zz", Data: Garbage(seed, 31337, 2*s.Cfg.Slice+1)}})
+		pk := other.CorePackets("refwriter")
+		pk = append(pk, other.RecvPacket(0, other.RecoveryBlock(0)))
+		fs.Put(strings.TrimSuffix(s.Index, ".par2")+".vol77+01.par2", rpar2.Join(pk...))
+	default:
+		ApplyData(fs, s.Paths, s.RecFiles, s.Cfg.Slice, seed, d)
+	}
+}
+
+// RecMenu lists the recovery-file damage operators.
+func RecMenu(nRec int) []Dmg {
+	var m []Dmg
+	for v := 0; v < nRec; v++ {
+		m = append(m, Dmg{Op: "badrec", F: v}, Dmg{Op: "fliprec", F: v}, Dmg{Op: "truncrec", F: v}, Dmg{Op: "emptyrec", F: v})
+	}
+	m = append(m, Dmg{Op: "foreignrec"})
+	return m
+}
